@@ -46,6 +46,7 @@ type FnCtx struct {
 	strLitText map[string]string
 	strAxioms bool
 	strLenDone map[string]bool
+	ixAxiom   bool
 	epochs    int
 	abstracted map[string]bool
 	assumptions map[string]bool
@@ -795,6 +796,7 @@ func (c *FnCtx) execInstr(fr *Frame, st *State, instr ssa.Instruction) {
 		if s := structOf(et); s != nil {
 			r := c.allocRef(st, "new$"+typeKey(et))
 			c.zeroStruct(st, et, r)
+			c.initEmbedded(st, et, r, 0)
 			fr.regs[x] = Sc{r}
 			return
 		}
@@ -997,4 +999,30 @@ func (c *FnCtx) phi(fr *Frame, st *State, x *ssa.Phi) SV {
 		out = c.freshValue(x.Type(), "phi")
 	}
 	return out
+}
+
+// initEmbedded: zero values of library objects embedded by value that have an abstract model
+// (an empty sync.Map).
+func (c *FnCtx) initEmbedded(st *State, t types.Type, ref Term, depth int) {
+	s := structOf(t)
+	if s == nil || depth > 3 {
+		return
+	}
+	for i := 0; i < s.NumFields(); i++ {
+		ft := s.Field(i).Type()
+		if structOf(ft) == nil {
+			continue
+		}
+		sub := c.subRef(fieldLoc(t, i, ref))
+		if typeKey(ft) == "sync.Map" {
+			domS := SArr(SInt, SArr(SInt, SBool))
+			h := c.heapGet(st, "smap$dom", domS)
+			empty := Term{"((as const (Array Int Bool)) false)", SArr(SInt, SBool)}
+			c.heapSet(st, "smap$dom", c.vc.Name("h", Store(h, sub, empty)))
+			hc := c.heapGet(st, "smap$card", SArr(SInt, SInt))
+			c.heapSet(st, "smap$card", c.vc.Name("h", Store(hc, sub, IntLit(0))))
+			continue
+		}
+		c.initEmbedded(st, ft, sub, depth+1)
+	}
 }
